@@ -146,6 +146,8 @@ def render(rng, lhs, rhs, tight=False):
 def rand_value(rng, allow_zero=True):
     if allow_zero and rng.random() < 0.2:
         return 0.0
+    if rng.random() < 0.2:          # tiny but non-zero (natural with mol / m / h units): not "zero" for K
+        return float(rng.randint(1, 9) * Fraction(10) ** rng.randint(-30, -9))
     return float(rng.randint(1, 99999) * Fraction(10) ** rng.randint(-6, 6))
 
 
